@@ -421,6 +421,9 @@ def x10(ctx, rid):
                 elif flds and '*' in st['d'][1] and f.locals[st['d'][0]]['s'].startswith('&mut ') and ('::' in f.locals[st['d'][0]]['s']):
                     # the same through an exclusive reference (`&mut self` of an index / blob that the caller reached through a
                     # guard): `self.inner = ..` before the await, `self.filter = ..` after it
+                    ogs = core.origins(f, st['d'][0])
+                    if ogs and all(o.kind in ('agg', 'const') or (o.kind == 'call' and o.data.name in ('new', 'default', 'with_capacity')) for o in ogs):
+                        continue    # a reference to an accumulator this body built itself (nothing shared is half-updated)
                     writes.append((i, st['d'][0], flds[0]))
         if not writes:
             continue
